@@ -5,6 +5,7 @@ import scen_common, prop_mu_family
 PID = "C13"
 PROP_V = "Props/Properties_C13.v"
 GEN_MODULES = ["Consts", "Sites"]
+FLOW_FILES = ['mu.c']
 REPLAY_HINT = "VRT_SEED=<seed> [env] _work/h/<scenario>: the arena unmaps freed blocks (UAF) and the runtime knows every thread's parked stack pointer (DEADSTACK)"
 PARTIAL = ["mutex half: proved as the two lemmas the refcount argument needs (C13_last_cas, C13_pinned, C13_fast_release_is_last) over the "
            "condition-free MuModel; the refcount theorem with an explicit free operation and the reader-mode variant (design finding F5: "
